@@ -35,7 +35,7 @@ theorem getD_zero_of_ge (l : List (BitVec 64)) (k : Nat) (h : l.length ≤ k) : 
   simp [List.getD_eq_getElem?_getD, List.getElem?_eq_none h]
 
 theorem has_eq_bit (s : UintSet) (i : Nat) : s.has i = bit s i := by
-  unfold UintSet.has bit
+  unfold UintSet.has bit UintSet.wordBits
   split
   · exact has64_eq _ _
   · simp only [has64_eq]
@@ -73,14 +73,14 @@ theorem getD_set (l : List (BitVec 64)) (k n : Nat) (w : BitVec 64) (hk : k < l.
 
 /-- `insert` reports whether the bit was clear. -/
 theorem insert_snd (s : UintSet) (i : Nat) : (s.insert i).2 = !bit s i := by
-  unfold UintSet.insert bit
+  unfold UintSet.insert bit UintSet.wordBits
   split
   · simp [has64_eq]
   · simp only [has64_eq, getD_grow]
 
 /-- `insert` sets bit `i` and no other. -/
 theorem bit_insert (s : UintSet) (i j : Nat) : bit (s.insert i).1 j = (decide (j = i) || bit s j) := by
-  unfold UintSet.insert
+  unfold UintSet.insert UintSet.wordBits
   by_cases hi : i < 64
   · simp only [hi, if_true]
     unfold bit
